@@ -34,6 +34,18 @@ def g_str(name, *args):
 g_str.__pyvc_native__ = True
 
 
+def cleanup_model(ip_, args, kwargs, node):
+    """abstraction of cleanup_desc: a deterministic, idempotent function of the text (idempotence: the function returns a fixed
+    point of its own loop body; bounded-checked in C01)"""
+    import z3 as _z3
+    a = args[0]
+    t = a.t if isinstance(a, SV) else None
+    if t is not None and _z3.is_app(t) and t.decl().name() == 'G_cleanup':
+        return a
+    ip_.ctx.assumed.append('abstraction:cleanup_desc is a deterministic idempotent function of the text')
+    return g_str('G_cleanup', a)
+
+
 def install(ip, twprge_matches=None, sec_matches=None, finder_flags=((), ()), pp_identity=True, keep_gen_flags=False,
             layout_oracle=None):
     """register the abstraction contracts on this path.
